@@ -13,7 +13,7 @@ from ..common import rng_for, b2j
 
 LEVEL = "exploration"
 SHARDS = {"quick": 1, "thorough": 16}
-REQUIRED = ("auto_described_pairs", "equal_pairs", "unequal_pairs", "reprs", "pairs_with_move_fields", "pairs_with_em", "pairs_with_described",
+REQUIRED = ("same_name_class_pairs", "auto_described_pairs", "equal_pairs", "unequal_pairs", "reprs", "pairs_with_move_fields", "pairs_with_em", "pairs_with_described",
             "pairs_after_pack", "different_class_pairs", "nested_leaf_changes", "parsed_vs_constructed", "non_packet_comparisons")
 MIN_NONTRIVIAL = 150
 RULE = {
@@ -245,9 +245,57 @@ def one_tree(run, bench, rng, raw, pv, feats):
         expect(run, bench, "other-class", a.pkt, b.pkt, False, dict(base_w, note="same declaration, two distinct classes"))
 
 
+def same_name_other_class(run, bench, rng, directory):
+    """Two distinct classes that share their __name__ (the same declaration names in another module, with
+    one more field): after comparing instances of the first, instances of the second must still be
+    compared by their own fields, and instances of the two are never equal."""
+    from .. import spec as specmod
+    fam = bench.fam
+    fam2 = specmod.clone(fam)
+    root2 = fam2["decls"][fam2["root"]]
+    extra = {"name": "fx", "t": "int", "n": 1, "signed": False, "endian": None}
+    root2["fields"].append(extra)
+    try:
+        b2 = harness.Bench(fam2, {"g": render.VARIANTS["g"], "d": {}}, directory, instrument=())
+    except Exception:
+        run.count("same_name_second_family_undefinable")
+        return
+    try:
+        for _ in range(6):
+            raw, oc = model.generate_input(fam2, rng, maxlen=100)
+            st, mr = harness.model_parse(fam2, raw, 0)
+            if st != "ok":
+                continue
+            changed = model.copy_val(mr.value)
+            changed.vals["fx"] = (changed.vals["fx"] + 1) & 0xFF
+            for v in ("g", "d"):
+                A = bench.root(v)
+                B = b2.root(v)
+                w = {"source": driver.src_of(bench, v), "second_source": render.family_src(fam2, {v: b2.loaded.variants[v]}),
+                     "raw": b2j(raw), "note": "two classes named %s in two modules; the second has one more field 'fx'" % A.__name__}
+                ra = harness.lib_unpack(A, raw)
+                if ra.status != "ok":
+                    continue
+                # populate whatever the library may remember about the first class
+                cmp_safe(run, ra.pkt, harness.lib_unpack(A, raw).pkt, w)
+                p = monitors.build_packet(b2.loaded, v, mr.value, "kwargs")
+                q = monitors.build_packet(b2.loaded, v, changed, "kwargs")
+                run.count("same_name_class_pairs")
+                if not expect(run, bench, "same-name-class:only-extra-field-differs", p, q, False, w):
+                    return
+                if not expect(run, bench, "same-name-class:identical", p, monitors.build_packet(b2.loaded, v, mr.value, "attrs"), True, w):
+                    return
+                if not expect(run, bench, "same-name-other-class", ra.pkt, p, False, w):
+                    return
+            break
+    finally:
+        b2.close()
+
+
 def run(run):
     shard, nshards = run.shard
     rng = rng_for(run.seed, "c20", shard)
+    side_dir = common.scratch_dir("bvf_c20b_")
     nfam = 450 if run.tier == "quick" else 2000
     profile = {"p_move": 0.35, "p_class_align": 0.15, "p_describe": 0.25, "allow_regex_nokeep_single": False,
                "kinds": {"int": 34, "data": 22, "bits": 8, "ref": 16, "sel": 8, "em": 8}, "p_backward_at": 0.05}
@@ -273,5 +321,8 @@ def run(run):
             if sampled < 3 and len(mr.value.vals) > 2:
                 sampled += 1
                 run.sample({"source": driver.src_of(bench), "raw": raw, "values": mr.value.to_json()})
+        if rng.random() < 0.35:
+            same_name_other_class(run, bench, rng, side_dir)
         if run.counters["violations"] > 30:
             break
+    common.drop_scratch(side_dir)
